@@ -68,6 +68,7 @@ let run (toks : string list) : string =
         if not !stop then begin
           let i = String.index op ':' in
           let k = String.sub op 0 i and rest = String.sub op (i+1) (String.length op - i - 1) in
+          if k = "ST" then out := show_val !c.Charac.cvalue :: !out else
           let cop = match k with
             | "L" -> Charac.CLocal (parse_val rest)
             | "G" -> Charac.CGetFn (None, parse_val rest)
